@@ -182,7 +182,7 @@ PROPS = {
                 "srvq: the same programs against the whole Server of the generated copy (every producer a client connection on the in-memory network sending /r<v>, receivers calling "
                 "recv / try_recv / recv_timeout, unblock through Server::unblock; bursts of 5..8 connections, 5..12 s of virtual silence, then new connections), replayed on the same LTS "
                 "with anonymous pushes matched one-to-one against the delivered requests",
-        "required_tags": ["ptimer:0", "ptimer:200", "timedtook:1", "timeoutexp:1", "blocked:1", "left:1", "unblock:1", "srv:1", "burst:1", "whole:1", "spurious:1"],
+        "required_tags": ["ptimer:0", "ptimer:200", "timedtook:1", "timeoutexp:1", "blocked:1", "left:1", "unblock:1", "srv:1", "burst:1", "whole:1", "spurious:1", "preempt:1"],
         "partial": ["theorem: exactly-once/FIFO and no-lost-wake-up invariants of the queue LTS for all schedules",
                     "that a connection pushes its requests in parse order is the connection-loop model (C12.trace_extends_state); real-thread scheduling is sampled by C06/C11's pristine runs"],
         "assumptions": CTL_ASSUMPTIONS,
@@ -193,7 +193,7 @@ PROPS = {
         "rule": "same scenarios as C07 (unblock issued before, while and after receivers block); token accounting, try_pop non-blocking and the recv_timeout bounds are "
                 "evaluated on the implementation's history with virtual-clock durations compared exactly with the LTS; in zero-latency runs every unblock must release a "
                 "waiting receiver at the very instant it is issued (or leave nobody waiting); srvq: the same through Server::recv / try_recv / recv_timeout / unblock",
-        "required_tags": ["ptimer:0", "unblock:1", "timed:1", "timeoutexp:1", "srv:1", "spurious:1"],
+        "required_tags": ["ptimer:0", "unblock:1", "timed:1", "timeoutexp:1", "srv:1", "spurious:1", "preempt:1"],
         "partial": ["theorem: token conservation, try_recv non-blocking, recv_timeout bounds on the zero-latency LTS", "scheduling latency of real threads is outside the model"],
         "assumptions": CTL_ASSUMPTIONS,
     },
@@ -207,7 +207,7 @@ PROPS = {
         "rule": "TaskPool of the generated copy under the deterministic scheduler: bursts of 1..40 tasks (gaps 0 / 10 us / 1 ms / 6 s, before or after the initial workers "
                 "went idle), tasks block on a gate that stays shut (keep-alive connections that never end) or end at once; random schedules; every run replayed on the Lean "
                 "LTS (dispatch branch, which worker starts which task); predicate: every dispatched task started although no task ended",
-        "required_tags": ["tasks:5", "tasks:gt16", "tasks:le4", "newthread:1", "queued:1", "presettle:0", "presettle:1", "srv:burst:5", "srv:burst:16", "srv:burst:200", "srv:held", "srvpool:1", "fam:vanish", "fam:vanishdata", "spuriouswake:1"],
+        "required_tags": ["tasks:5", "tasks:gt16", "tasks:le4", "newthread:1", "queued:1", "presettle:0", "presettle:1", "srv:burst:5", "srv:burst:16", "srv:burst:200", "srv:held", "srvpool:1", "fam:vanish", "fam:vanishdata", "spuriouswake:1", "preempt:1"],
         "partial": ["theorem: every queued task is claimed by a woken worker (for all burst patterns and schedules); conservation and at-most-once start",
                     "whole-server isolation over real sockets (N simultaneous keep-alive connections) is sampled by the pristine burst batch"],
         "assumptions": CTL_ASSUMPTIONS,
